@@ -709,26 +709,34 @@ func (ar *asyncRunner) onRejected(call FunctionCall) Value {
 
 func (ar *asyncRunner) step(res Value, done bool, ex *Exception) {
 	r := ar.f.runtime
-	if done || ex != nil {
+	for !done && ex == nil {
+		// await
+		var promise *Object
+		ex = r.vm.try(func() {
+			promise = r.promiseResolve(r.getPromise(), res)
+		})
 		if ex == nil {
-			ar.promiseCap.resolve(res)
-		} else {
-			ar.promiseCap.reject(ex.val)
+			promise.self.(*Promise).addReactions(&promiseReaction{
+				typ:         promiseReactionFulfill,
+				handler:     &jobCallback{callback: ar.onFulfilled},
+				asyncRunner: ar,
+			}, &promiseReaction{
+				typ:         promiseReactionReject,
+				handler:     &jobCallback{callback: ar.onRejected},
+				asyncRunner: ar,
+			})
+			return
 		}
-		return
+		// PromiseResolve() has thrown (the 'constructor' getter of the promise): throw it into the body at the await
+		var resType resultType
+		res, resType, ex = ar.gen.nextThrow(ex)
+		done = resType == resultNormal
 	}
-
-	// await
-	promise := r.promiseResolve(r.getPromise(), res)
-	promise.self.(*Promise).addReactions(&promiseReaction{
-		typ:         promiseReactionFulfill,
-		handler:     &jobCallback{callback: ar.onFulfilled},
-		asyncRunner: ar,
-	}, &promiseReaction{
-		typ:         promiseReactionReject,
-		handler:     &jobCallback{callback: ar.onRejected},
-		asyncRunner: ar,
-	})
+	if ex == nil {
+		ar.promiseCap.resolve(res)
+	} else {
+		ar.promiseCap.reject(ex.val)
+	}
 }
 
 func (ar *asyncRunner) start(nArgs int) {
@@ -736,16 +744,22 @@ func (ar *asyncRunner) start(nArgs int) {
 	ar.gen.vm = r.vm
 	ar.promiseCap = r.newPromiseCapability(r.getPromise())
 	sp := r.vm.sp
-	ar.gen.enter()
-	defer ar.gen.leaveOnPanic()
-	ar.vmCall(r.vm, nArgs)
-	res, resType, ex := ar.gen.step()
+	var res Value
+	var resType resultType
+	var ex *Exception
+	func() {
+		ar.gen.enter()
+		defer ar.gen.leaveOnPanic()
+		ar.vmCall(r.vm, nArgs)
+		res, resType, ex = ar.gen.step()
+		if ex != nil {
+			r.vm.sp = sp - nArgs - 2
+		}
+		r.vm.popTryFrame()
+		r.vm.popCtx()
+	}()
+	// may resume the body, so the marker frame must have been removed
 	ar.step(res, resType == resultNormal, ex)
-	if ex != nil {
-		r.vm.sp = sp - nArgs - 2
-	}
-	r.vm.popTryFrame()
-	r.vm.popCtx()
 }
 
 type generator struct {
